@@ -51,7 +51,7 @@ class Exec:
         self.sc = sc
         self.n = len(sc["tasks"])
         self.scratch = scratch
-        self.world = vloop.PoolWorld(start_failures={f"t{i}" for i in sc.get("start_fail", ())}, stubborn={f"t{i}" for i, t in enumerate(sc["tasks"]) if t.get("stubborn")},
+        self.world = vloop.PoolWorld(start_failures={f"t{i}" for i in sc.get("start_fail", ())}, stubborn={f"t{i}" for i, t in enumerate(sc["tasks"]) if t.get("stubborn")}, start_exc=sc.get("start_exc", "oserror"),
                                      payloads={f"t{i}": p for i, p in sc.get("payloads", {}).items()})
         self.loop = self.world.loop
         self.violations = []  # (property, what, detail)
@@ -63,6 +63,7 @@ class Exec:
         self.issued = []
         self.clients = []
         self.cancel_named = []  # ids clients literally asked to cancel
+        self.acked = []  # task ids the server has acknowledged (task_enqueued written), in order
         self.trace = []
         self.final_seen = {}
         self.max_live = 0
@@ -128,8 +129,17 @@ class Exec:
                 self.clients.append(dict(name=c["name"], ops=c["ops"], after=c.get("after"), i=0, reader=reader, writer=writer, handler=handler, healthy=c.get("healthy", False), expect=0, parsed=0, enq_order=[]))
                 orig_write = writer.write
 
+                writer.acked_snaps = []
+
                 def write(b, writer=writer, orig_write=orig_write):
                     writer.snapshots.append({str(k): v.name for k, v in self.sched.task_states.items()})
+                    writer.acked_snaps.append(list(self.acked))  # ids acknowledged to some client before this answer was written
+                    try:
+                        m = json.loads(b)
+                        if isinstance(m, dict) and m.get("__kind__") == "task_enqueued":
+                            self.acked.append(m.get("tid"))
+                    except ValueError:
+                        pass
                     orig_write(b)
 
                 writer.write = write
@@ -164,6 +174,10 @@ class Exec:
                 dstate = self.state_name(d)
                 if df["exit"] != 0 or dstate != "COMPLETED":
                     self.violations.append(("C11", "task started although a dependency has not completed successfully",
+                                            dict(task=idx, dep=d, dep_exit=df["exit"], dep_state=dstate)))
+                elif df["killed"] and not df["cancel_nonfinal"] and not self.sc.get("kill_race"):
+                    # the pool itself killed the dependency (time limit): whatever its shell had returned, it did not complete
+                    self.violations.append(("C11", "task started although a dependency was killed for exceeding its time limit",
                                             dict(task=idx, dep=d, dep_exit=df["exit"], dep_state=dstate)))
                 elif df["cancel_nonfinal"] and not df["cancel_after_exit0"]:
                     # the dependency was cancelled while it had not finished (the pool said CANCELLED at that instant): whatever
@@ -293,6 +307,15 @@ class Exec:
                 c["expect"] += 1
                 c["enq_order"].append(i)
             feed(msg)
+        elif kind == "enq+states":
+            # one write carrying an enqueue and a state query: the query is answered right after the acknowledgement
+            i = op[1]
+            t = sc["tasks"][i]
+            deps = [self.tids.get(d, 900 + d) for d in t["deps"]] + list(t.get("extra_deps", ()))
+            msg = dict(__kind__="enqueue_task", name=f"t{i}", script=f"run t{i}", time_limit=t.get("time_limit"), working_dir=self.scratch, deps=deps)
+            c["expect"] += 2
+            c["enq_order"].append(i)
+            self.loop.do(rd.feed_data, (json.dumps(msg) + "\n" + json.dumps(dict(__kind__="get_task_states")) + "\n").encode())
         elif kind == "states":
             c["expect"] += 1
             feed(dict(__kind__="get_task_states"))
@@ -491,6 +514,10 @@ class Exec:
                         if msg.get("state") != want:
                             out.append(("C14", "task_state answer differs from the true state of the id asked about", dict(client=c["name"], asked=tid, answered=msg.get("state"), true=want)))
                 elif kind == "task_states":
+                    acked = c["writer"].acked_snaps[k] if k < len(getattr(c["writer"], "acked_snaps", [])) else []
+                    missing = [t for t in acked if str(t) not in msg["tasks"]]
+                    if missing:
+                        out.append(("C14", "a task_states answer lacks a task whose id the pool had already acknowledged", dict(client=c["name"], missing=missing, answered=msg["tasks"])))
                     truth = snaps[k] if k < len(snaps) else None
                     if truth is not None and msg["tasks"] != truth:
                         out.append(("C14", "task_states answer differs from the true task states", dict(client=c["name"], answered=msg["tasks"], true=truth)))
